@@ -222,7 +222,8 @@ func runC19(ctx *Ctx) error {
 		r := ctx.Rng.Fork()
 		doc, _ := genSpec(r, SpecOpts{Adversarial: i%6 == 5})
 		// non-ASCII text and a description padded to move the chunk boundary
-		doc["info"].(J)["description"] = strings.Repeat("é日本 \"quoted\" \\ ", 1+r.Intn(3)) + strings.Repeat("x", i%83)
+		// (also text that documents JSON escapes: a backslash followed by u003c is six characters of text, not "<")
+		doc["info"].(J)["description"] = strings.Repeat("é日本 \"quoted\" \\ ", 1+r.Intn(3)) + "<&> \\u003c \\u0026 \\u003e " + strings.Repeat("x", i%83)
 		var fc fcfg
 		switch r.Intn(4) {
 		case 0:
